@@ -26,7 +26,22 @@ ASSUMPTIONS = ["the invariant is an internal-state invariant by nature: the rust
 def gen(rng, i, tier):
     return {"seed": rng.randrange(1 << 40), "n_ops": rng.choice([5, 12, 25, 40, 60]), "p_collide": rng.choice([0.2, 0.35, 0.5]),
             "two_systems": i % 3 == 1, "no_reports": i % 2 == 1, "second_is_copy": i % 6 == 1, "reload": i % 4 == 2,
-            "zero_prelude": i % 5 == 3, "fragment_rails": i % 5 == 1}
+            "zero_prelude": i % 5 == 3, "fragment_rails": i % 5 == 1,
+            "leaf_then_parent": i % 10 == 7}  # (i odd: a history without reports between the edits)
+
+
+def _leaf_then_parent_ops(rng, L):
+    """Aimed calls: a parent gets two leaves; the NEWER leaf is deleted and, with no other call in between, the parent is
+    deleted with del_childs=False (its remaining child must be re-linked to the grandparent)."""
+    src = [n for n, k in L["kinds"].items() if k == "Source"][0]
+    taken = set(L["names"]) | set(r for r in L["rails"].values() if r)
+    free = [n for n in ["Q5", "Q6", "Q7", "Q8", "Q9"] if n not in taken]
+    p_, a_, b_ = free[:3]
+    return [{"op": "add_comp", "parent": src, "comp": hist.comp_entry(rng, rng.choice(["Converter", "RLoss", "PSwitch"]), p_)},
+            {"op": "add_comp", "parent": p_, "comp": hist.comp_entry(rng, rng.choice(["ILoad", "RLoss"]), a_)},
+            {"op": "add_comp", "parent": p_, "comp": hist.comp_entry(rng, rng.choice(["PLoad", "ILoad", "RLoad"]), b_)},
+            {"op": "del_comp", "name": b_, "del_childs": rng.random() < 0.5},
+            {"op": "del_comp", "name": p_, "del_childs": False}]
 
 
 def _fragment_rail_ops(rng, L):
@@ -119,6 +134,10 @@ def run(ctx, case):
             frag_done = True
             aimed = _fragment_rail_ops(rng, L)
             ctx.count("history", "aimed: rail changed to an in-use fragment of the present rail")
+        if case.get("leaf_then_parent") and k >= 2 and not aimed and cur is systems[0] and not frag_done:
+            frag_done = True
+            aimed = _leaf_then_parent_ops(rng, L)
+            ctx.count("history", "aimed: newest leaf deleted, then its parent with del_childs=False, nothing in between")
         op = aimed.pop(0) if aimed else hist.random_op(rng, L, p_collide=case["p_collide"])
         st, exc = hist.apply(sysobj, op, ns)
         ops.append({"op": op, "system": systems.index(cur), "outcome": "accepted" if st == "ok" else H.exc_sig(exc)})
